@@ -271,7 +271,8 @@ fn build(c: &Value) -> (TerminalCommand, String, Vec<RGBA>) {
             let coq = format!("Raw {}", cbytes(&d));
             (TerminalCommand::Raw(d), coq)
         }
-        _ => (TerminalCommand::Reset, "Reset".into()),
+        "Reset" => (TerminalCommand::Reset, "Reset".into()),
+        other => panic!("harness: unknown command kind {:?}", other),
     };
     (cmd, format!("({})", coq), colors)
 }
@@ -464,7 +465,12 @@ fn rand_caps(rng: &mut Rng) -> Value {
     caps_json(*rng.pick(&DEPTHS), rng.chance(1, 2), rng.chance(1, 2))
 }
 fn rand_text(rng: &mut Rng, allow_c0: bool) -> String {
-    let n = rng.below(12) as usize;
+    // mostly short, sometimes long, occasionally very long
+    let n = match rng.below(100) {
+        0 => 300 + rng.below(200) as usize,
+        1..=9 => rng.below(64) as usize,
+        _ => rng.below(12) as usize,
+    };
     let mut s = String::new();
     for _ in 0..n {
         let c = match rng.below(12) {
@@ -593,7 +599,7 @@ pub fn generate(rng: &mut Rng, n: usize, tier: &str) -> Vec<Value> {
         for bits in 0..256u64 {
             let reps = if thorough { 4 } else { 1 };
             for r in 0..reps {
-                let k = if thorough { r } else { bits % 4 };
+                let k = if thorough { r } else { rng.below(4) };
                 let fg = if k & 1 != 0 { color_pool(rng) } else { Value::Null };
                 let bg = if k & 2 != 0 { color_pool(rng) } else { Value::Null };
                 v.push(json!({"caps": caps_json(depth, false, false), "cmd": {"t": "Face", "fg": fg, "bg": bg, "bits": bits}}));
@@ -624,7 +630,8 @@ pub fn generate(rng: &mut Rng, n: usize, tier: &str) -> Vec<Value> {
         }
     }
     // (d) extreme integers, systematically
-    let caps = caps_json("true", true, false);
+    for (depth, kitty) in [("true", true), ("256", false), ("gray", true)] {
+    let caps = caps_json(depth, kitty, false);
     let um = usize::MAX as u128;
     for x in [0u128, 1, 9, 10, (1 << 32) - 1, 1 << 32, (1 << 63) - 1, 1 << 63, um - 1, um] {
         for y in [0u128, 1, um - 1, um] {
@@ -640,6 +647,8 @@ pub fn generate(rng: &mut Rng, n: usize, tier: &str) -> Vec<Value> {
         }
         v.push(json!({"caps": caps, "cmd": {"t": "Scroll", "n": x.to_string()}}));
     }
+    }
+    let caps = caps_json("true", true, false);
     // (e) capability names with every byte value below 0x80 (one per name) and some multi-byte ones
     for b in 0u32..128 {
         let s: String = char::from_u32(b).unwrap().to_string();
